@@ -669,6 +669,12 @@ func mapLinkProperties(mm map[string][]byte, l Link) (hasData bool, err error) {
 		}
 		hasData = true
 	}
+	if l.Preview != nil {
+		if mm["preview"], err = gobEncodeItem(l.Preview); err != nil {
+			return
+		}
+		hasData = true
+	}
 	return
 }
 
